@@ -48,6 +48,14 @@ def run(ctx):
                     ctx.violation("bootstrapping at full size died (n=%d, k=%d, %s/%s) rc=%s %s" % (n, k, be, kind, rc, err[-200:]), key="h_boot full crash n=%d k=%d %s %s" % (n, k, be, kind))
                     continue
                 out.write(open(part).read())
+            # the same in one process for seven configurations in a row (k = 2, 1, 2, 1, 1, 2, 1), parameter objects re-initialised in the same storage
+            part = f + ".part"
+            with open(part, "w") as po:
+                rc, _, err = sh([exe, "fullseq", "--cases", "768" if kind == "optim" else "256", "--seed", str(ctx.seed + 5)], stdout=po, timeout=3000)
+            if rc != 0:
+                ctx.violation("bootstrapping at full size died in a sequence of configurations (%s/%s) rc=%s %s" % (be, kind, rc, err[-200:]), key="h_boot fullseq crash %s %s" % (be, kind))
+            else:
+                out.write(open(part).read())
         bad = table.validate_rows(ctx, "Table_C04F", f, what="C04 full %s %s" % (be, kind))
         if bad:
             ctx.violation("full-size bootstrapping (%s/%s) does not map the rounded phase through the test vector: row %s" % (be, kind, (bad["row"] or "")[:200] + " ..."), detail={"row_index": bad["row_index"]}, files=[f])
